@@ -164,3 +164,103 @@ Proof.
 Qed.
 
 End Judgments.
+
+(* ------------------------------------------------------------------------------------------ *)
+(* More fuel (and a callee that answers at least as often) never changes a result: a single successful run of the
+   executable evaluator determines "the" result. *)
+Definition callf_le (c1 c2 : string -> list value -> option ctl) : Prop :=
+  forall g vs r, c1 g vs = Some r -> c2 g vs = Some r.
+
+Section Mono.
+Variables c1 c2 : string -> list value -> option ctl.
+Hypothesis Hc : callf_le c1 c2.
+
+Ltac use_ih IH E f' := first [rewrite (IH _ _ _ E f') by lia | rewrite (IH _ _ _ _ E f') by lia | rewrite (IH _ _ _ _ _ _ E f') by lia].
+
+Ltac head_step f' IHe IHl IHs IHa IHw IHf IHx :=
+  match goal with
+  | H : Some _ = Some _ |- _ => injection H as <-
+  | H : None = Some _ |- _ => discriminate H
+  | H : match eval c1 ?f ?a ?en with _ => _ end = Some _ |- _ =>
+      let E := fresh "E" in destruct (eval c1 f a en) as [[? ?]|] eqn:E; [rewrite (IHe _ _ _ E f') by lia|discriminate H]
+  | H : match eval_list c1 ?f ?a ?en with _ => _ end = Some _ |- _ =>
+      let E := fresh "E" in destruct (eval_list c1 f a en) as [[? ?]|] eqn:E; [rewrite (IHl _ _ _ E f') by lia|discriminate H]
+  | H : match eval_stmts c1 ?f ?a ?en with _ => _ end = Some _ |- _ =>
+      let E := fresh "E" in destruct (eval_stmts c1 f a en) as [[? ?]|] eqn:E; [rewrite (IHs _ _ _ E f') by lia|discriminate H]
+  | H : match eval_sels c1 ?f ?a ?en with _ => _ end = Some _ |- _ =>
+      let E := fresh "E" in destruct (eval_sels c1 f a en) as [[? ?]|] eqn:E; [rewrite (IHx _ _ _ E f') by lia|discriminate H]
+  | H : match c1 ?g ?vs with _ => _ end = Some _ |- _ =>
+      let E := fresh "E" in destruct (c1 g vs) eqn:E; [rewrite (Hc _ _ _ E)|discriminate H]
+  | H : eval c1 ?f ?a ?en = Some _ |- _ => rewrite (IHe _ _ _ H f') by lia; clear H
+  | H : eval_arms c1 ?f ?v ?a ?en = Some _ |- _ => rewrite (IHa _ _ _ _ H f') by lia; clear H
+  | H : eval_while c1 ?f ?c ?b ?en = Some _ |- _ => rewrite (IHw _ _ _ _ H f') by lia; clear H
+  | H : eval_for c1 ?f ?i ?k ?n ?b ?en = Some _ |- _ => rewrite (IHf _ _ _ _ _ _ H f') by lia; clear H
+  | H : eval_stmts c1 ?f ?a ?en = Some _ |- _ => rewrite (IHs _ _ _ H f') by lia; clear H
+  | H : eval_sels c1 ?f ?a ?en = Some _ |- _ => rewrite (IHx _ _ _ H f') by lia; clear H
+  | H : eval_list c1 ?f ?a ?en = Some _ |- _ => rewrite (IHl _ _ _ H f') by lia; clear H
+  | H : match ?x with _ => _ end = Some _ |- _ => destruct x eqn:?
+  | H : (if ?x then _ else _) = Some _ |- _ => destruct x eqn:?
+  end.
+
+Ltac crush f' IHe IHl IHs IHa IHw IHf IHx :=
+  repeat (unfold bindv in *; try reflexivity; head_step f' IHe IHl IHs IHa IHw IHf IHx); unfold bindv; try reflexivity; try congruence.
+
+Lemma eval_mono_all : forall f,
+  (forall e en r, eval c1 f e en = Some r -> forall f', f <= f' -> eval c2 f' e en = Some r) /\
+  (forall es en r, eval_list c1 f es en = Some r -> forall f', f <= f' -> eval_list c2 f' es en = Some r) /\
+  (forall ss en r, eval_stmts c1 f ss en = Some r -> forall f', f <= f' -> eval_stmts c2 f' ss en = Some r) /\
+  (forall v arms en r, eval_arms c1 f v arms en = Some r -> forall f', f <= f' -> eval_arms c2 f' v arms en = Some r) /\
+  (forall c b en r, eval_while c1 f c b en = Some r -> forall f', f <= f' -> eval_while c2 f' c b en = Some r) /\
+  (forall i k n b en r, eval_for c1 f i k n b en = Some r -> forall f', f <= f' -> eval_for c2 f' i k n b en = Some r) /\
+  (forall sels en r, eval_sels c1 f sels en = Some r -> forall f', f <= f' -> eval_sels c2 f' sels en = Some r).
+Proof.
+  induction f as [|f IH].
+  - repeat split; intros; simpl in *; discriminate.
+  - destruct IH as (IHe & IHl & IHs & IHa & IHw & IHf & IHx).
+    repeat split.
+    + intros e en r H f' Hf. destruct f' as [|f']; [lia|].
+      destruct e; simpl in H |- *; crush f' IHe IHl IHs IHa IHw IHf IHx.
+    + intros es en r H f' Hf. destruct f' as [|f']; [lia|].
+      destruct es; simpl in H |- *; crush f' IHe IHl IHs IHa IHw IHf IHx.
+    + intros ss en r H f' Hf. destruct f' as [|f']; [lia|].
+      destruct ss as [|s ss]; [|destruct s]; simpl in H |- *; crush f' IHe IHl IHs IHa IHw IHf IHx.
+    + intros v arms en r H f' Hf. destruct f' as [|f']; [lia|].
+      destruct arms as [|[p body] arms]; simpl in H |- *; crush f' IHe IHl IHs IHa IHw IHf IHx.
+    + intros c b en r H f' Hf. destruct f' as [|f']; [lia|].
+      simpl in H |- *; crush f' IHe IHl IHs IHa IHw IHf IHx.
+    + intros i k n b en r H f' Hf. destruct f' as [|f']; [lia|].
+      destruct n; simpl in H |- *; crush f' IHe IHl IHs IHa IHw IHf IHx.
+    + intros sels en r H f' Hf. destruct f' as [|f']; [lia|].
+      destruct sels as [|s sels]; [|destruct s]; simpl in H |- *; crush f' IHe IHl IHs IHa IHw IHf IHx.
+Qed.
+End Mono.
+
+Lemma callf_le_refl c : callf_le c c.
+Proof. intros g vs r H. exact H. Qed.
+
+Section CallMono.
+Variable P : program.
+
+Lemma call_user_mono : forall d fl fl' g vs c,
+  fl <= fl' -> call_user P d fl g vs = Some c -> call_user P d fl' g vs = Some c.
+Proof.
+  induction d as [|d IH]; intros fl fl' g vs c Hfl H; simpl in *; [discriminate|].
+  destruct (find_fn P g) as [fd|]; [|discriminate].
+  destruct (bind_params fd vs) as [en0|]; [|discriminate].
+  set (c1 := fun g0 vs0 => if is_builtin g0 then builtin g0 vs0 else call_user P d fl g0 vs0) in *.
+  set (c2 := fun g0 vs0 => if is_builtin g0 then builtin g0 vs0 else call_user P d fl' g0 vs0).
+  assert (Hle : callf_le c1 c2).
+  { intros g0 vs0 r0. unfold c1, c2. destruct (is_builtin g0); [auto|]. apply IH. exact Hfl. }
+  destruct (eval c1 fl (fn_body fd) en0) as [[cr en']|] eqn:E; [|discriminate].
+  destruct (eval_mono_all c1 c2 Hle fl) as (He & _).
+  rewrite (He _ _ _ E fl' Hfl). exact H.
+Qed.
+
+(* one successful run with some fuel fixes the result for every larger fuel *)
+Lemma calls_of_run d fl g vs c :
+  is_builtin g = false -> call_user P d fl g vs = Some c -> calls P d g vs c.
+Proof.
+  intros Hb H. split; [exact Hb|]. exists fl. intros fl' Hfl. exact (call_user_mono d fl fl' g vs c Hfl H).
+Qed.
+
+End CallMono.
